@@ -59,6 +59,11 @@ class AbstractBasicStatement(AbstractBasicConstruct):
 
         return BasicVar(val, is_str_expr=is_str_exp)
 
+    def reserve_temps(self, statement: "AbstractBasicStatement") -> None:
+        """Makes sure this statement never hands out a temp of statement."""
+        self._temps.update(statement._temps)
+        self._str_temps.update(statement._str_temps)
+
     def transform_function_to_call(self, exp):
         exp.set_var(self.get_new_temp(exp.is_str_expr))
         self.pre_assignment_statements.append(exp.statement)
